@@ -47,16 +47,19 @@ def call_trigger(ex, c):
     """Classify an API call by the state it met when it was issued (root-cause class)."""
     if c.name == 'disconnect':
         view = getattr(c, 'view', {})
+        # a disconnect handler that takes time opens a window in which the transport can go
+        # away under the closing session: its own class of histories
+        slow = '|slow-disconnect-handler' if ex.world.app_log.delay.get('disconnect') else ''
         if c.args == ():
             kinds = set(view.values())
             for k in ('polling-no-poll-pending', 'polling-poll-pending', 'websocket'):
                 if k in kinds:
-                    return 'disconnect-all|' + k
-            return 'disconnect-all|no-session'
+                    return 'disconnect-all|' + k + slow
+            return 'disconnect-all|no-session' + slow
         s = session_of_call(ex, c)
         if s is None or s.ord not in view:
-            return 'disconnect|dead-or-unknown-sid'
-        return 'disconnect|' + view[s.ord]
+            return 'disconnect|dead-or-unknown-sid' + slow
+        return 'disconnect|' + view[s.ord] + slow
     return c.name
 
 
@@ -133,6 +136,9 @@ def monitor(ex, final):
 
 
 PROFILE = {
+    'world_kw_st': st.fixed_dictionaries({
+        'handler_delay': st.sampled_from([{}, {}, {}, {'disconnect': 0.25}, {'message': 0.25},
+                                          {'disconnect': 0.25, 'message': 0.25}])}),
     'weights': {'open': 3, 'poll': 3, 'post': 4, 'probe_step': 2, 'ws_send': 2, 'ws_close': 1,
                 'ws_fail': 1, 'pong': 1, 'app_send': 2, 'app_disconnect': 3, 'advance': 2,
                 'fault': 1, 'vanish': 1, 'request': 9},
